@@ -161,17 +161,54 @@ var zeroDotNegQual = regexp.MustCompile(`(?i)\.0+\.(alpha|beta|milestone|rc|cr|s
 // which also breaks transitivity against "1-sp", "1-1", ...
 var zeroDotReleaseQualNum = regexp.MustCompile(`(?i)\.0+\.(ga|final|release)[-.]?[0-9]`)
 
+// knownClass is consulted once a law is broken. MavenZeroDotQualifier is
+// Maven's own non-transitivity and needs both shapes in the case: a version
+// with a zero component followed by a '.'-introduced qualifier that sorts
+// before the release, and a version with a '-'-introduced element or a
+// qualifier that sorts after the release (sp, an unknown word, a number).
+// (Maven 3.8.7's ComparableVersion cannot serve as the judge here: on
+// '.'-introduced qualifiers it differs from the documented algorithm the
+// library follows, see DESIGN §4.3.)
+var prefixThenRest = regexp.MustCompile(`^[0-9]+(\.[0-9]+)*([-.]?)([A-Za-z]*)`)
+
+// dashOrPositiveQual: after the numeric prefix comes a '-'-introduced element,
+// or a qualifier that does not sort before the release.
+func dashOrPositiveQual(s string) bool {
+	m := prefixThenRest.FindStringSubmatch(s)
+	if m == nil || len(m[0]) == len(s) && m[2] == "" && m[3] == "" {
+		return false
+	}
+	if m[2] == "-" {
+		return true
+	}
+	switch strings.ToLower(m[3]) {
+	case "", "alpha", "beta", "milestone", "rc", "cr", "snapshot", "a", "b", "m":
+		return false
+	}
+	return true
+}
+
 func knownClass(sys semver.System, strs []string) string {
 	if sys != semver.Maven {
 		return ""
 	}
-	for _, s := range strs {
-		if zeroDotNegQual.MatchString(s) && kf.Open("C01", "MavenZeroDotQualifier") {
-			return "MavenZeroDotQualifier"
+	shape := func(re *regexp.Regexp) bool {
+		for _, s := range strs {
+			if re.MatchString(s) {
+				return true
+			}
 		}
-		if zeroDotReleaseQualNum.MatchString(s) && kf.Open("C01", "MavenZeroDotReleaseQualifierNumber") {
-			return "MavenZeroDotReleaseQualifierNumber"
-		}
+		return false
+	}
+	other := false
+	for _, x := range strs {
+		other = other || dashOrPositiveQual(x)
+	}
+	if shape(zeroDotNegQual) && other && kf.Open("C01", "MavenZeroDotQualifier") {
+		return "MavenZeroDotQualifier"
+	}
+	if shape(zeroDotReleaseQualNum) && kf.Open("C01", "MavenZeroDotReleaseQualifierNumber") {
+		return "MavenZeroDotReleaseQualifierNumber"
 	}
 	return ""
 }
@@ -187,10 +224,6 @@ func lawsProp(sys semver.System, g *rapid.Generator[string]) func(*rapid.T) {
 			rec.ExcludedDomain("rejected-or-wildcard")
 			return
 		}
-		if cl := knownClass(sys, strs); cl != "" {
-			rec.ExcludedKnown(cl)
-			return
-		}
 		rec.Eval(1)
 		if nontrivial(strs, vs) {
 			rec.NonTrivial(sys.String() + "|" + strings.Join(strs, "|"))
@@ -200,6 +233,10 @@ func lawsProp(sys semver.System, g *rapid.Generator[string]) func(*rapid.T) {
 			}
 		}
 		if obs, exp := lawsViolation(sys, strs, vs); obs != "" {
+			if cl := knownClass(sys, strs); cl != "" {
+				rec.ExcludedKnown(cl)
+				return
+			}
 			rec.Fail(t, c, obs, exp)
 		}
 	}
@@ -381,10 +418,6 @@ func sortProp(sys semver.System, g *rapid.Generator[string]) func(*rapid.T) {
 			rec.ExcludedDomain("rejected-or-wildcard")
 			return
 		}
-		if cl := knownClass(sys, list); cl != "" {
-			rec.ExcludedKnown(cl)
-			return
-		}
 		rec.Eval(1)
 		distinct := map[string]bool{}
 		for _, s := range list {
@@ -397,6 +430,10 @@ func sortProp(sys semver.System, g *rapid.Generator[string]) func(*rapid.T) {
 			}
 		}
 		if obs, exp := sortViolation(sys, list, perm); obs != "" {
+			if cl := knownClass(sys, list); cl != "" {
+				rec.ExcludedKnown(cl)
+				return
+			}
 			rec.Fail(t, c, obs, exp)
 		}
 	}
@@ -455,11 +492,8 @@ func TestCorpus(t *testing.T) {
 		if !ok {
 			continue
 		}
-		if knownClass(sys, c.V) != "" {
-			continue
-		}
 		rec.Eval(1)
-		if obs, exp := lawsViolation(sys, c.V, vs); obs != "" {
+		if obs, exp := lawsViolation(sys, c.V, vs); obs != "" && knownClass(sys, c.V) == "" {
 			rec.Violation("corpus", c, obs, exp)
 			t.Errorf("corpus case %v: %s", c, obs)
 		}
@@ -548,10 +582,7 @@ func FuzzOrderLaws(f *testing.F) {
 		if !ok {
 			return
 		}
-		if knownClass(sys, strs) != "" {
-			return
-		}
-		if obs, exp := lawsViolation(sys, strs, vs); obs != "" {
+		if obs, exp := lawsViolation(sys, strs, vs); obs != "" && knownClass(sys, strs) == "" {
 			t.Fatalf("system=%s v=%q: %s (expected %s)", sys, strs, obs, exp)
 		}
 	})
